@@ -29,6 +29,16 @@ CHECKS = {
             "Reference interpreter in vlib/refsem.py (Interp, lhs_map). Acyclic single-module designs; one sync domain with a "
             "synchronous reset (domain/reset variety is C03's job).",
             "DESIGN.md §2, §4 C02"),
+    "C05": ("exploration",
+            "exhaustive small-width sweep + Hypothesis-generated expressions and nested write targets; three-way differential "
+            "(testbench get/set vs circuit in the same simulator vs reference interpreter)",
+            "Reads: every C01 sweep expression and random compositions are evaluated by ctx.get() and by a combinational "
+            "signal in the same simulation, both compared with the reference value. Writes: random nested targets over "
+            "undriven signals and memory rows are written by ctx.set(), by the equivalent clocked assignment statement and "
+            "in the reference per-bit model; the whole state must agree after every write. Shape-castable signals "
+            "(struct layouts with enum fields) round-trip through from_bits/const.",
+            "Reference per-bit assignment model (vlib/refsem.py lhs_map/assign_bits). Memory rows are registers in the circuit variant.",
+            "DESIGN.md §4 C05"),
     "C10": ("exploration",
             "exhaustive enumeration of small boxes + Hypothesis property tests against a brute-force oracle",
             "Every range / (value, shape) / helper argument in a stated finite box is enumerated and compared "
